@@ -110,6 +110,24 @@ fn main() {
             let hs = args.get(2).and_then(|s| s.parse().ok()).unwrap_or(1);
             engines::compile::jobdigest_main(hs, args.get(3).map(|s| s.as_str()).unwrap_or("[]"))
         }
+        "hintprobe" => {
+            // shows that push_i32 leaves the intended value on the interpreter's stack: point 2 is moved by it
+            use skrifa::MetadataProvider;
+            for v in [5i32, 196_613, -196_613, 0x0123_4567, -0x0123_4567, 70_000, -40_000, 0x00FF_FFFF] {
+                let mut prog = vec![0xB8, 0, 2];
+                prog.extend(engines::hintops::push_i32(v));
+                prog.push(0x38);
+                let font = synth::build_custom(&prog, &[], &[], &[]);
+                let f = skrifa::raw::FontRef::new(&font).unwrap();
+                let o = f.outline_glyphs();
+                let inst = skrifa::outline::HintingInstance::new(&o, skrifa::instance::Size::new(1024.0), skrifa::instance::LocationRef::default(), skrifa::outline::HintingOptions { engine: engines::drawhist::engine_of(0), target: engines::drawhist::target_of(0) }).unwrap();
+                let mut rec = engines::drawhist::Recording::default();
+                let r = o.get(skrifa::GlyphId::new(1)).unwrap().draw(skrifa::outline::DrawSettings::hinted(&inst, true), &mut rec);
+                let xs: Vec<f32> = rec.cmds.iter().map(|c| f32::from_bits(c.1[0])).collect();
+                println!("v={v} expected shift {:.3} -> {:?} {:?}", v as f64 / 64.0, r.is_ok(), xs);
+            }
+            0
+        }
         "counts" => {
             println!("table windows: {}", engines::images::table_window_count());
             println!("outline chunks (quick): {}", engines::images::outline_chunk_count_quick());
